@@ -15,6 +15,7 @@ RULES = {
     "C08.R4": "copy discipline: from_module copies weight and bias with copy_ under no_grad and returns the twin moved to the source device",
     "C08.R5": "walk: quantize iterates named_modules(), applies the filter, forwards **kwargs, and replaces through set_module_by_name only when a twin was built",
     "C08.R7": "weight source: qforward reads the weight only through self.qweight, a plain property that stores nothing and returns quantize_weight(self.weight, <module configuration>) on every unfrozen access (the twin is evaluated with the quantization of its current weight)",
+    "C08.R11": "any input batch: a quantized implementation of a torch function that broadcasts a per-channel vector (scales, bias) against its output builds the broadcast shape from the rank of the operand - a literal shape such as `reshape(1, -1, 1, 1)` is only used under a guard on that rank (F.conv2d also takes unbatched 3-D inputs, F.linear any rank)",
     "C08.R8": "the float op the twin calls on (input, qweight, bias) is itself right: the quantized linear function returns (*batch, out) with every raw payload matched by its scale once and the bias added after scaling (the typing rules C07.R1/R2/R6, the accumulation table C07.R3, the primitive preconditions C07.R5 and the scale-product rule C07.R10, re-checked here)",
     "C08.R10": "the root of the tree is handled: named_modules() yields the model itself under the empty name, which cannot be replaced in its parent - quantize() must skip or reject it before it replaces anything or clears parameters",
     "C08.R9": "dtype and device are kept: the activation-scale buffers of a twin are created with the dtype and device the constructor receives from the source module (a factory call without dtype gives float32 scales, hence float32 outputs from a half-precision model)",
@@ -126,6 +127,13 @@ def run(chk):
     from ..report import AliasedCheck
     from . import c07
     c07.run(AliasedCheck(chk, {"C07.R1": "C08.R8", "C07.R2": "C08.R8", "C07.R6": "C08.R8", "C07.R3": "C08.R8", "C07.R5": "C08.R8", "C07.R10": "C08.R8"}))
+    # the twins compute through torch functions (F.linear, F.conv2d behind _conv_forward, F.layer_norm): a quantized implementation registered for one
+    # of them that no rule describes leaves "each twin computes its float twin" undecided
+    fixed_rank_broadcasts(chk)
+    from .. import handrules
+    for r_ in handrules.analyse(repo, chk.tier):
+        if r_.pid == "C05" and r_.rule == "C05.R8" and r_.verdict == "unknown" and "function wrapper" in r_.detail:
+            chk.unknown("C08.R8", r_.site, r_.detail)
     chk.assume("torch.nn.Linear/Conv2d/LayerNorm keep each constructor argument in the same-named attribute (torch contract); their signatures are re-read from torch's sources on every run")
 
 
@@ -615,3 +623,61 @@ def root_module(chk):
             handled = True
     chk.require("C08.R10", f"{mi.rel}:{q.lineno}", handled, "quantize() tests for the root module (empty name) before replacing it", "quantize", "root module replaced under the empty name",
                 "model = nn.Linear(8, 4); quantize(model, weights=qint8): type(model) stays Linear, a child named '' is attached, model.weight and model.bias are None and the forward raises")
+
+
+_FIXED_RANK_EXAMPLE = """
+def conv(func, input, weight, bias=None):
+    out = func(input._data, weight._data)
+    return out * weight._scale.reshape(1, -1, 1, 1)
+
+def conv_guarded(func, input, weight, bias=None):
+    out = func(input._data, weight._data)
+    if input.ndim == 4:
+        return out * weight._scale.reshape(1, -1, 1, 1)
+    return out * weight._scale.reshape(-1, 1, 1)
+
+def conv_relative(func, input, weight, bias=None):
+    out = func(input._data, weight._data)
+    return out * weight._scale.reshape(1, -1, *([1] * (weight.ndim - 2)))
+"""
+
+
+def _fixed_rank_broadcasts(fn):
+    """reshape / view calls of `fn` to a literal shape made of ones and a single -1 (three dimensions or more) that no test on a rank dominates"""
+    out = []
+    guarded_lines = set()
+    for n in ast.walk(fn):
+        if isinstance(n, (ast.If, ast.Assert)) and any((isinstance(x, ast.Attribute) and x.attr == "ndim") or (isinstance(x, ast.Call) and isinstance(x.func, ast.Attribute) and x.func.attr == "dim") or
+                                                      (isinstance(x, ast.Call) and U(x.func) == "len" and x.args and U(x.args[0]).endswith(".shape")) for x in ast.walk(n.test)):
+            if isinstance(n, ast.If):
+                for b in n.body + n.orelse:
+                    guarded_lines.update(range(b.lineno, (b.end_lineno or b.lineno) + 1))
+            else:
+                guarded_lines.update(range(n.lineno, (fn.end_lineno or n.lineno) + 1))
+            # a guard that returns / raises early dominates what follows it
+            if isinstance(n, ast.If) and n.body and isinstance(n.body[-1], (ast.Return, ast.Raise)):
+                guarded_lines.update(range(n.end_lineno or n.lineno, (fn.end_lineno or n.lineno) + 1))
+    for n in ast.walk(fn):
+        if isinstance(n, ast.Call) and isinstance(n.func, ast.Attribute) and n.func.attr in ("reshape", "view") and len(n.args) >= 3 and not n.keywords:
+            vals = [a.value if isinstance(a, ast.Constant) else (-a.operand.value if isinstance(a, ast.UnaryOp) and isinstance(a.op, ast.USub) and isinstance(a.operand, ast.Constant) else None) for a in n.args]
+            if all(v in (1, -1) for v in vals) and vals.count(-1) == 1 and n.lineno not in guarded_lines:
+                out.append(n)
+    return out
+
+
+def fixed_rank_broadcasts(chk):
+    tree = ast.parse(_FIXED_RANK_EXAMPLE)
+    v = {f.name: len(_fixed_rank_broadcasts(f)) for f in tree.body}
+    if v != {"conv": 1, "conv_guarded": 0, "conv_relative": 0}:
+        raise AnalysisError(f"fixed-rank broadcast detector misjudges its built-in examples: {v}")
+    from ..registries import handlers
+    repo = chk.repo
+    hs = handlers(repo)
+    n = 0
+    for h in hs["qfunc"] + hs["qbytes"] + hs["qbits"]:
+        n += 1
+        for c in _fixed_rank_broadcasts(h.fn):
+            chk.bad("C08.R11", f"{h.mi.rel}:{c.lineno}", h.name, "per-channel vector broadcast through a literal rank", f"NOT: `{U(c)[:60]}` in {h.name} fixes the rank of the broadcast while the function accepts operands of several ranks",
+                    "a QConv2d with quantized activations fed an unbatched (C, H, W) input: the output has shape (1, C_out, H', W') where the float module returns (C_out, H', W')")
+    chk.ok("C08.R11", "handlers and function wrappers", f"{n} quantized implementations scanned: no per-channel broadcast through a literal rank")
+    chk.floor("C08.R11", n, 20, "quantized implementations scanned")
